@@ -342,6 +342,12 @@ func (g *g2) object(depth int) M {
 	if g.chance(2, "oreq") {
 		m["required"] = []any{"id"}
 		g.nCons++
+		if g.chance(3, "oreqother") {
+			// required may name members the schema does not declare itself (declared by an allOf
+			// sibling, or admitted by additionalProperties)
+			m["required"] = []any{"id", "elsewhere", "tags"}
+			g.feats["required-undeclared"] = true
+		}
 	}
 	if g.chance(4, "onull") {
 		m["x-nullable"] = true
